@@ -182,7 +182,7 @@ func emitEngine(r *core.Run, rule string) {
 			r.Note("%s", nn)
 		}
 	}
-	floors := map[string]int{"R-CURSOR": 300, "R-PROGRESS": 40, "R-EOF": 5, "R-ERRMOVE": 10, "R-TILE": 30, "R-SPELL": 30, "R-TAGSTATE": 6, "R-ERRSTUCK": 6, "R-INPLACE": 2, "R-RESTORE": 8, "R-EOFNEST": 3}
+	floors := map[string]int{"R-CURSOR": 300, "R-PROGRESS": 40, "R-EOF": 5, "R-ERRMOVE": 10, "R-TILE": 30, "R-SPELL": 30, "R-TAGSTATE": 6, "R-ERRSTUCK": 6, "R-INPLACE": 2, "R-RESTORE": 4, "R-EOFNEST": 3}
 	if engineFilter(r.Prog) != "" {
 		return
 	}
@@ -237,6 +237,7 @@ func runEngineAll(r *core.Run) *engResult {
 				}
 			}()
 			t.run()
+			t.e.finishRestore()
 		}(t)
 	}
 	wg.Wait()
